@@ -340,19 +340,36 @@ fn main() {
         if parts.len() < 3 {
             undecided(format!("bad directive: {}", t));
         }
-        let (file, sel, name) = (parts[0], parts[1], parts[2]);
-        // optional 4th field of //@paste: `as <alias>` -- the key under which //@closure, //@loop and //@replace directives
-        // address this paste (needed when several pasted functions share a name)
-        let key: &str = if is_paste && parts.len() >= 4 { parts[3].strip_prefix("as ").map(|x| x.trim()).unwrap_or(name) } else { name };
+        let (mut file, mut sel, name) = (parts[0].to_string(), parts[1].to_string(), parts[2]);
+        // optional trailing fields of //@paste and //@sig:
+        //   `as <alias>`                 the key under which //@closure, //@loop and //@replace directives address this paste
+        //   `override <file> ; <sel>`    for a trait DEFAULT method instantiated for one implementor (rule E4): if that implementor
+        //                                overrides the method, its own body is the code that runs and is pasted instead
+        let mut key: &str = name;
+        let mut overridden = false;
+        for extra in parts.iter().skip(3) {
+            if let Some(a) = extra.strip_prefix("as ") { if is_paste { key = a.trim(); } }
+            if let Some(o) = extra.strip_prefix("override ") {
+                if let Some((f2, s2)) = o.split_once(';') {
+                    let (f2, s2) = (f2.trim(), s2.trim());
+                    load(&mut cache, f2);
+                    let (_, parsed2) = cache.get(f2).unwrap();
+                    if find_fn(parsed2, s2, name).is_some() { file = f2.to_string(); sel = s2.to_string(); overridden = true; }
+                }
+            }
+        }
+        let (file, sel) = (file.as_str(), sel.as_str());
         load(&mut cache, file);
         let (src, parsed) = cache.get(file).unwrap();
         let (fsig, fblock) = find_fn(parsed, sel, name).unwrap_or_else(|| undecided(format!("LOST-ANCHOR {} | {} | {}", file, sel, name)));
         if is_sig {
-            if parts.len() != 4 {
+            if parts.len() < 4 {
                 undecided(format!("bad directive: {}", t));
             }
             let real = &src[fsig.span().byte_range()];
-            if norm(real) != norm(parts[3]) {
+            // (an implementor's override of a default method may spell its types concretely: the template's own Verus signature
+            // then decides whether the pasted body fits)
+            if !overridden && norm(real) != norm(parts[3]) {
                 undecided(format!("SIGNATURE-CHANGED {}::{}\n  expected {}\n  found    {}", sel, name, parts[3], real));
             }
             out.push_str(l);
@@ -458,8 +475,8 @@ fn main() {
             .map(|e| format!("{{\"rule\":{},\"at\":{},\"from\":{},\"to\":{}}}", json_str(e.rule), e.start, json_str(&src[e.start..e.end]), json_str(&e.text)))
             .collect();
         map_entries.push(format!(
-            "{{\"fn\":{},\"sel\":{},\"file\":{},\"repo_line_first\":{},\"repo_line_last\":{},\"gen_line_first\":{},\"gen_line_last\":{},\"byte_lo\":{},\"byte_hi\":{},\"closures\":{},\"loops\":{},\"edits\":[{}]}}",
-            json_str(name), json_str(sel), json_str(file), line0, line1, gen_first, gen_last, lo, hi, n_closures, n_loops, edits_json.join(",")
+            "{{\"fn\":{},\"overridden\":{},\"sel\":{},\"file\":{},\"repo_line_first\":{},\"repo_line_last\":{},\"gen_line_first\":{},\"gen_line_last\":{},\"byte_lo\":{},\"byte_hi\":{},\"closures\":{},\"loops\":{},\"edits\":[{}]}}",
+            json_str(name), overridden, json_str(sel), json_str(file), line0, line1, gen_first, gen_last, lo, hi, n_closures, n_loops, edits_json.join(",")
         ));
     }
     std::fs::write(&args[3], out).unwrap_or_else(|e| undecided(format!("write {}: {}", args[3], e)));
